@@ -296,7 +296,8 @@ def render_cell(c, lay=None, with_imp=True):
         else:
             opts.append('imp:n=%s' % fnum(c.imp) if not isinstance(c.imp, str) else 'imp:n=%s' % c.imp)
     if c.u:
-        opts.append('u=%d' % c.u)
+        # `neg_u`: MCNP's "not truncated by the container" spelling u=-n (the converter does not match it with FILL=n)
+        opts.append('u=%d' % (-c.u if h.get('neg_u') else c.u))
     if c.trcl is not None:
         if h.get('trcl_num') is not None:
             opts.append('trcl=%d' % h['trcl_num'])
